@@ -19,8 +19,9 @@ STEXT = "self.atok.get_text(self.atok.tree)"
 
 UNITS = [
     # ------------------------------------------------------------------ C04
-    # positions[j] == (1-based line of offset j, 1-based column of offset j) for every character that is
-    # not itself a line break (no construct starts on a '\n').  lc_line / lc_col are the recursive
+    # positions[j] == (1-based line of offset j, 1-based column of offset j) for every character, a line break
+    # included (it belongs to the line that it ends: the module of a file that begins with an empty line starts
+    # on one).  lc_line / lc_col are the recursive
     # definitions in contracts/_ext.py (global prefix folds): line = 1 + #'\n' before j, col = #chars since
     # the last '\n' before j.
     Contract(f"{COMMON}:LinenoColumner.__init__", ["C04"], specs=S,
@@ -30,14 +31,14 @@ UNITS = [
                      ("len", "len(positions) == _i"),
                      ("line", f"lineno == lc_line({TEXT}, _i)"),
                      ("col", f"column == lc_col({TEXT}, _i)"),
-                     ("table", f"forall(0, _i, lambda j: implies({TEXT}[j] != '\\n', positions[j] == "
-                               f"(lc_line({TEXT}, j), lc_col({TEXT}, j) + 1)))"),
+                     ("table", f"forall(0, _i, lambda j: positions[j] == "
+                               f"(lc_line({TEXT}, j), lc_col({TEXT}, j) + 1))"),
                  ])},
              ensures=[
                  ("table-size", f"len(self.positions) == len({TEXT})"),
                  ("one-based-line-and-column",
-                  f"forall(0, len({TEXT}), lambda q: implies({TEXT}[q] != '\\n', self.positions[q] == "
-                  f"(lc_line({TEXT}, q), lc_col({TEXT}, q) + 1)))"),
+                  f"forall(0, len({TEXT}), lambda q: self.positions[q] == "
+                  f"(lc_line({TEXT}, q), lc_col({TEXT}, q) + 1))"),
                  ("atok-kept", "self.atok is atok"),
              ],
              twins=[("zero-based-column",
@@ -51,8 +52,8 @@ UNITS = [
     Contract(f"{COMMON}:LinenoColumner.error_message", ["C04", "C03", "C01"], specs=S,
              requires=[
                  ("table-size", f"len(self.positions) == len({STEXT})"),
-                 ("table", f"forall(0, len({STEXT}), lambda j: implies({STEXT}[j] != '\\n', self.positions[j] == "
-                           f"(lc_line({STEXT}, j), lc_col({STEXT}, j) + 1)))"),
+                 ("table", f"forall(0, len({STEXT}), lambda j: self.positions[j] == "
+                           f"(lc_line({STEXT}, j), lc_col({STEXT}, j) + 1))"),
                  ("error-tree-invariant", "pred('deep_ok', error)"),
              ],
              facts=["implies(pred('deep_ok', error), entry_ok(error.message) and (error.underlying is None or "
